@@ -13,6 +13,10 @@ open Carapace
 structure FlagDefG extends FlagDef where
   delim : Char := '='
   nargs : Int := 0
+  /-- the shorthand as a text: a word in non-POSIX flag sets (`-bool-short`); `short` is its letter when it is one -/
+  shortW : Str := []
+  /-- 0 Default, 1 ShorthandOnly (`-short` only), 2 NameAsShorthand (`-short`, `-name`, `--name`) -/
+  mode : Nat := 0
   deriving DecidableEq, Repr, Inhabited
 
 abbrev FlagSetG := List FlagDefG
@@ -40,19 +44,34 @@ def lookupPosixShortG (fs : FlagSetG) : Str → Str → Option FoundG
         else if !f.noOptDef then some ⟨f, pre ++ [c], [d :: r2]⟩
         else lookupPosixShortG fs (pre ++ [c]) (d :: r2)
 
-/-- `lookupPosixLonghandArg` on the text after `--`: the first flag (VisitAll order) whose name is the
-    text in front of the first occurrence of that flag's own delimiter -/
+/-- `FlagSet.IsPosix`: no shorthand is longer than one letter - where a NameAsShorthand flag that has a
+    shorthand also registers its name as one -/
+def isPosixG (fs : FlagSetG) : Bool :=
+  fs.all (fun f => decide (f.shortW.length ≤ 1) && (f.mode != 2 || f.shortW.isEmpty || decide (f.name.length ≤ 1)))
+
+/-- `lookupPosixLonghandArg` on the text after `--`: the first flag of mode Default (VisitAll order) whose
+    name is the text in front of the first occurrence of that flag's own delimiter -/
 def lookupPosixLongG (fs : FlagSetG) (body : Str) : Option FoundG :=
-  (fs.find? (fun f => (Str.cutChar f.delim body).1 == f.name)).map (fun f =>
+  (fs.find? (fun f => f.mode == 0 && (Str.cutChar f.delim body).1 == f.name)).map (fun f =>
     match Str.cutChar f.delim body with
     | (n, none) => ⟨f, "--".toList ++ n, []⟩
     | (n, some v) => ⟨f, "--".toList ++ n ++ [f.delim], [v]⟩)
 
-/-- `FlagSet.LookupArg` (POSIX flag set) -/
+/-- `lookupNonPosixShorthandArg` on a word that starts with `-`: the first flag, in the order of the names
+    (VisitAll), whose shorthand is the text between the `-` and the first occurrence of the flag's own
+    delimiter - a flag without shorthand answers to a lone `-` -/
+def lookupNonPosixG (fs : FlagSetG) (arg : Str) : Option FoundG :=
+  ((sortBy (fun (a b : FlagDefG) => Str.lt a.name b.name) fs).find? (fun f => (Str.cutChar f.delim arg).1 == '-' :: f.shortW)).map (fun f =>
+    match Str.cutChar f.delim arg with
+    | (n, none) => ⟨f, n, []⟩
+    | (n, some v) => ⟨f, n ++ [f.delim], [v]⟩)
+
+/-- `FlagSet.LookupArg` -/
 def lookupArgG (fs : FlagSetG) (arg : Str) : Option FoundG :=
   match arg with
   | '-' :: '-' :: body => lookupPosixLongG fs body
-  | '-' :: c :: rest => lookupPosixShortG fs ['-'] (c :: rest)
+  | '-' :: c :: rest => if isPosixG fs then lookupPosixShortG fs ['-'] (c :: rest) else lookupNonPosixG fs ('-' :: c :: rest)
+  | ['-'] => if isPosixG fs then none else lookupNonPosixG fs ['-']
   | _ => none
 
 /-- `Flag.Consumes(arg)` -/
